@@ -1,5 +1,5 @@
 //! Process-level guards used by crash-isolated workers: a counting allocator (largest single
-//! request, peak live bytes, hard cap), and a wall-clock watchdog per case.
+//! request, peak live bytes, hard cap), and a CPU-time watchdog per case.
 
 use std::alloc::{GlobalAlloc, Layout, System};
 use std::cell::Cell;
@@ -141,9 +141,17 @@ pub fn alloc_end() -> AllocReading {
 static CASE_STARTED_MS: AtomicU64 = AtomicU64::new(0);
 static CASE_LIMIT_MS: AtomicU64 = AtomicU64::new(0);
 
+/// CPU time consumed by this process so far, in milliseconds. The watchdog measures CPU time,
+/// not wall time: a case that loops burns CPU, a process that is merely starved by a loaded
+/// machine does not, so load cannot turn into a verdict.
 fn now_ms() -> u64 {
-    use std::time::{SystemTime, UNIX_EPOCH};
-    SystemTime::now().duration_since(UNIX_EPOCH).map(|d| d.as_millis() as u64).unwrap_or(0)
+    let mut ts = libc::timespec { tv_sec: 0, tv_nsec: 0 };
+    // SAFETY: plain clock_gettime into a local timespec
+    let rc = unsafe { libc::clock_gettime(libc::CLOCK_PROCESS_CPUTIME_ID, &mut ts) };
+    if rc != 0 {
+        return 0;
+    }
+    (ts.tv_sec as u64) * 1000 + (ts.tv_nsec as u64) / 1_000_000
 }
 
 /// Exit code of a worker killed by its own watchdog.
@@ -170,7 +178,7 @@ pub fn watchdog_start(limit_ms: u64) {
 }
 
 pub fn case_begin() {
-    CASE_STARTED_MS.store(now_ms(), Ordering::SeqCst);
+    CASE_STARTED_MS.store(now_ms().max(1), Ordering::SeqCst);
 }
 
 pub fn case_end() {
